@@ -41,7 +41,7 @@ BOUND = {
 }
 DISTANCES = [1.9, 2.04, 2.3, 2.49, 2.499, 2.501, 2.51, 2.6, 3.0, 5.0]
 LAYOUTS = ["AB", "BA", "same_id", "blank_ter", "descending", "icode",
-           "negative", "lower"]
+           "negative", "lower", "serial_restart", "serial_same"]
 HG = ["none", "first", "both"]
 
 
@@ -110,6 +110,26 @@ def build_pair(case):
     s1 = np.round(next(a for a in u1 if a["name"] == "SG")["xyz"], 3)
     s2 = np.round(next(a for a in u2 if a["name"] == "SG")["xyz"], 3)
     return atoms, info, float(np.linalg.norm(s1 - s2))
+
+
+def pair_text(atoms, layout):
+    """PDB text of a pair; two layouts differ in the serial-number column
+    only: numbering restarts with every chain (both SG carry the same
+    serial), or every record carries the same number (wrapped column)."""
+    text = build.pdb_text(atoms)
+    if layout not in ("serial_restart", "serial_same"):
+        return text
+    out, n = [], 0
+    for line in text.splitlines():
+        rec = line[:6].strip()
+        if rec in ("ATOM", "HETATM", "TER"):
+            n += 1
+            serial = n if layout == "serial_restart" else 99999
+            line = line[:6] + f"{serial:>5}" + line[11:]
+            if rec == "TER":
+                n = 0
+        out.append(line)
+    return "\n".join(out) + "\n"
 
 
 def run_placement(case):
@@ -237,7 +257,7 @@ def run_case(case):
         return res
     ff = case["ff"]
     opts = list(case["opts"]) + [f"--ff={ff}"]
-    r = pipeline.run(build.pdb_text(atoms), opts)
+    r = pipeline.run(pair_text(atoms, case["layout"]), opts)
     if not r.ok:
         res["events"][f"run-failed:{ff}"] = 1
         return res
@@ -272,6 +292,16 @@ def run_case(case):
             if any(p is not None for p in partners) or a.ss_bonded or b.ss_bonded:
                 viol.append((f"C13/{tag}/bridged-although-beyond-limit",
                              {"d": d}))
+    # a cysteine the force field parameterises completely when free is
+    # parameterised completely when bridged, at every chain position
+    # ("receive bridged-cysteine parameters"): no atom of it unassigned
+    missed = {id(x) for x in (r.missed or [])}
+    for c in cys:
+        lost = sorted(x.name for x in c.atoms if id(x) in missed)
+        if lost:
+            viol.append((f"C13/{side}/{ff}/{case['pos']}/"
+                         "cysteine-not-fully-parameterised",
+                         {"unassigned": lost, "ffname": c.ffname}))
     # parameters: bridged / thiol parameters per the reference resolver
     pv, _ev, _cells = c01.check_assignment(r, info, ff, opts)
     for sig, detail in pv:
@@ -288,7 +318,7 @@ def run_case(case):
 
 
 def enumerate_cases(tier, seed):
-    ffs = ["AMBER", "PARSE"]
+    ffs = ["AMBER", "PARSE", "CHARMM"]
     rest = [f for f in corpus.FFS if f not in ffs]
     if tier == "quick":
         ffs.append(rest[seed % len(rest)])
